@@ -10,7 +10,9 @@ mkdir -p "$OUT"
 git -C "$WT" diff -- memcrs/src > "$OUT/patch.diff"
 DEMO=$(ls "$WT"/memcrs/tests/*.rs 2>/dev/null | head -1)
 [ -n "$DEMO" ] && cp "$DEMO" "$OUT/"
-LOG="$OUT/confirm.log"; : > "$LOG"
+LOG="$OUT/confirm.log"
+if [ "${SKIP_CONFIRM:-0}" != 1 ]; then
+: > "$LOG"
 cd "$WT" || exit 2
 echo "== demo WITH change" >> "$LOG"
 timeout 900 cargo test --offline --test "$(basename "$DEMO" .rs)" >> "$LOG" 2>&1; D_WITH=$?
@@ -25,6 +27,8 @@ timeout 900 cargo test --workspace --offline > "$OUT/suite.log" 2>&1; S=$?
 mv "$DEMO.off" "$DEMO"
 PASSED=$(grep -E '^test result: ok. 92 passed' "$OUT/suite.log" | wc -l)
 echo "demo_with_change_exit=$D_WITH demo_without_change_exit=$D_WITHOUT suite_exit=$S suite_92_passed=$PASSED" | tee -a "$LOG"
+fi
+[ "${ONLY_CONFIRM:-0}" = 1 ] && exit 0
 # 2. run the checks against /repo with the patch applied
 cd /repo || exit 2
 if ! git diff --quiet; then echo "/repo is dirty, refusing"; exit 2; fi
